@@ -201,8 +201,8 @@ structure OSt where
   csr1 : Bool := false
   rootC : Bool := false
   nocC : Bool := false
-  /-- a factory reset ran and the node has not restarted yet (`Matter::factory_reset` leaves the
-  session table alone: the sessions of the wiped fabrics are not judged) -/
+  /-- a factory reset ran and the node has not restarted yet (state level only: the bindings /
+  subscriptions of the handler-level extension are not reset by `Matter::factory_reset`) -/
   wiped : Bool := false
   /-- handler-level extension: committed values by name (`B`, `UL`, `NL`, `K:<fab>`) -/
   cmtX : List (String × String) := []
@@ -347,8 +347,9 @@ def oracle (st : OSt) (op : Op) (v : View) (kind : String) (dropped : List Nat :
       | some t => if t.expired ≠ s.expired then some s!"C07 other-fabric-session: session {s.id} of fabric {s.fab} changed while fabric {removed} went away" else none
       | none => some s!"C07 other-fabric-session: session {s.id} of fabric {s.fab} disappeared while fabric {removed} went away")
   -- a session that is usable (not expired, not a handshake still in flight) while its fabric is gone
+  -- (also after a factory reset: since the repair of `C07-factory-reset-keeps-sessions` it drops them)
   let wiped : Bool := if restartLike op then false else (st.wiped || op == .freset)
-  let v07d := if wiped then [] else
+  let v07d :=
     (v.sess.filter (fun s => !s.expired && !s.reserved && s.fab ≠ 0 && !present s.fab)).map (fun s =>
       s!"C07 session-outlives-fabric: session {s.id} ({s.kind}{s.fab}, peer {s.peer}) is usable but fabric index {s.fab} is gone")
   -- 5. C08: the fail-safe context
